@@ -516,6 +516,10 @@ mod status;
 pub mod storage;
 mod tracker;
 pub mod util;
+#[cfg(tikv_raft_rs_verif)]
+#[doc(hidden)]
+#[allow(missing_docs)]
+pub mod verif;
 
 pub use crate::raft::{
     vote_resp_msg_type, Raft, SoftState, StateRole, CAMPAIGN_ELECTION, CAMPAIGN_PRE_ELECTION,
